@@ -125,9 +125,9 @@ func checkC08(c *Ctx, r *Report) {
 	}
 	taintPositiveControls(c, r)
 	r.Floor("positive_controls", 5)
-	r.Floor("tainted_functions_amd64", 60)
-	r.Floor("branches_examined_amd64", 40)
-	r.Floor("index_exprs_examined_amd64", 500)
+	r.Floor("tainted_functions_amd64", 30)
+	r.Floor("branches_examined_amd64", 20)
+	r.Floor("index_exprs_examined_amd64", 250)
 }
 
 func c08Run(r *Report, p *Prog, arch string) {
